@@ -605,6 +605,82 @@ def kept(ipstr):
     return not ipstr.startswith("0.") and not ipstr.startswith("127.")
 
 
+# ---- property oracle for single `netstat -rn` lines, independent of sshuttle and of the model.
+# "for every IPv4 route printed by the remote routing tools (... netstat format) the canonical network address and
+# prefix length ... skipping lines it cannot interpret": a line is a plainly interpretable IPv4 route when its first
+# column is a destination a[.b[.c[.d]]][/w] (decimal octets 0..255, missing octets zero, width at most 8 bits per octet
+# given - the abbreviated BSD notation; no /w: 8 bits per octet given) and its THIRD column is either a flags word
+# (BSD layout: destination, gateway, flags[, refs, use, netif, expire]) or a contiguous dotted-quad genmask (Linux
+# layout: destination, gateway, genmask, ...).  Nothing after the third column is needed to read the route, so a
+# line with exactly three columns is a route like any other.  Lines outside this subset are not judged here.
+
+_NS_DEST = re.compile(r"(\d{1,3})(?:\.(\d{1,3}))?(?:\.(\d{1,3}))?(?:\.(\d{1,3}))?(?:/(\d{1,2}))?\Z", re.A)
+_NS_FLAGS = re.compile(r"[A-Za-z]{1,12}\Z")
+_NS_PLAIN = re.compile(r"[\x21-\x7e \t]+\Z")
+
+
+def spec_netstat_line(line):
+    """None, or ((network, width), number of columns, 'BSD'|'Linux') for a plainly interpretable netstat route line"""
+    if line.endswith("\n"):
+        line = line[:-1]
+    if not _NS_PLAIN.match(line):
+        return None
+    cols = [c for c in re.split(r"[ \t]+", line) if c]
+    if len(cols) < 3:
+        return None
+    m = _NS_DEST.match(cols[0])
+    if not m:
+        return None
+    octs = [x for x in m.groups()[:4] if x is not None]
+    if any(str(int(x)) != x or int(x) > 255 for x in octs):
+        return None
+    parts = len(octs)
+    ip = 0
+    for x in octs:
+        ip = (ip << 8) | int(x)
+    ip <<= 8 * (4 - parts)
+    wtxt = m.group(5)
+    if wtxt is not None and (str(int(wtxt)) != wtxt or int(wtxt) > 32):
+        return None
+    if _NS_FLAGS.match(cols[2]):
+        width = min(int(wtxt), 8 * parts) if wtxt is not None else 8 * parts
+        return expected_net(ip, width), len(cols), "BSD"
+    g = re.fullmatch(r"(\d{1,3})\.(\d{1,3})\.(\d{1,3})\.(\d{1,3})", cols[2], re.A)
+    if g and wtxt is None and parts == 4 and all(str(int(x)) == x and int(x) < 256 for x in g.groups()):
+        mk = int(ipaddress.IPv4Address(cols[2]))
+        if is_contiguous(mk):
+            return expected_net(ip, bin(mk).count("1")), len(cols), "Linux"
+    return None
+
+
+def netstat_line_what(line, ncols, layout, net, level):
+    return ("netstat route line %r (%d columns, %s layout) is a usable IPv4 route (%s/%d) but was not advertised%s"
+            % (" ".join(line.split()), ncols, layout, net[0], net[1], level))
+
+
+def payload_nets(payload):
+    """[(ipstr, width)] of a ROUTES payload ('2,a.b.c.d,w' lines), None if malformed"""
+    ents = [ln.split(b",") for ln in payload.split(b"\n") if ln]
+    if not all(len(e) == 3 and e[0] == b"2" and e[2].isdigit() for e in ents):
+        return None
+    return [(e[1].decode("latin-1"), int(e[2])) for e in ents]
+
+
+def netstat_table_missing(text, got, only_kept=True):
+    """text: `netstat -rn` output; got: advertised [(ipstr, width)] in order.  Every plainly interpretable route line that is
+    neither default, loopback nor 0.x must be advertised with its canonical network, in the order printed.
+    Returns None or (line, ncols, layout, net) of the first one that is not."""
+    it = iter(got)
+    for raw in text.split(b"\n"):
+        ln = raw.decode("latin-1")
+        s = spec_netstat_line(ln)
+        if s is None or not kept(s[0][0]):
+            continue
+        if not any(g == s[0] for g in it):
+            return ln, s[1], s[2], s[0]
+    return None
+
+
 # ---- property oracle for EVERY netmask value (contiguous or not), independent of sshuttle and of the model.
 # A routing-table entry (dest, genmask) matches exactly the addresses x with x & genmask == dest & genmask.
 # The advertisement "net/width" for that entry must (a) be canonical: no bit of net below the prefix is set;
@@ -784,7 +860,11 @@ def gen_table(rng, fmt, n, junk_rate=0.0, hostbits=0.5, allow_special=True):
                 exp.append(("0.0.0.0", 0))
                 continue
             mask = (0xffffffff << (32 - w)) & 0xffffffff
-            out.append(("%-15s %-15s %-15s U         0 0          0 eth%d\n" % (quad(ip), rng.choice(["0.0.0.0", quad(rand_addr(rng))]), quad(mask), rng.randint(0, 3))).encode())
+            if rng.random() < 0.12:      # exactly three columns: destination, gateway, genmask
+                out.append(("%-15s %-15s %s\n" % (quad(ip), rng.choice(["0.0.0.0", quad(rand_addr(rng))]), quad(mask))).encode())
+                ctx_abbrev[1] += 1
+            else:
+                out.append(("%-15s %-15s %-15s U         0 0          0 eth%d\n" % (quad(ip), rng.choice(["0.0.0.0", quad(rand_addr(rng))]), quad(mask), rng.randint(0, 3))).encode())
             exp.append(expected_net(ip, w))
         else:  # netstat-bsd: width lives in column 0, column 2 = flags
             k = rng.random()
@@ -805,8 +885,18 @@ def gen_table(rng, fmt, n, junk_rate=0.0, hostbits=0.5, allow_special=True):
             else:
                 wt = rng.choice([w, w, rng.randint(0, 32)])
                 dest, weff = "%s/%d" % (txt, wt), min(wt, 8 * parts)
-            out.append(("%-18s %-18s %-12s %d %d %s\n" % (dest, rng.choice(["link#4", quad(rand_addr(rng)), "0:1b:21:a:b:c"]),
-                                                           rng.choice(["UCS", "UGSc", "UHLWIi", "UH", "UmCS"]), rng.randint(0, 9), rng.randint(0, 999), "en0")).encode())
+            gwc, flc = rng.choice(["link#4", quad(rand_addr(rng)), "0:1b:21:a:b:c"]), rng.choice(["UCS", "UGSc", "UHLWIi", "UH", "UmCS"])
+            kc = rng.random()
+            if kc < 0.3:        # exactly three columns: destination, gateway, flags (no refs/use/netif printed for the route)
+                line = "%-18s %-18s %s\n" % (dest, gwc, flc) if rng.random() < 0.5 else "%s %s %s\n" % (dest, gwc, flc)
+                ctx_abbrev[1] += 1
+            elif kc < 0.45:     # four columns (FreeBSD >= 10: destination, gateway, flags, netif)
+                line = "%-18s %-18s %-12s %s\n" % (dest, gwc, flc, "en0")
+            elif kc < 0.55:     # seven columns (with an expire time)
+                line = "%-18s %-18s %-12s %d %d %s %d\n" % (dest, gwc, flc, rng.randint(0, 9), rng.randint(0, 999), "en0", rng.randint(1, 1200))
+            else:
+                line = "%-18s %-18s %-12s %d %d %s\n" % (dest, gwc, flc, rng.randint(0, 9), rng.randint(0, 999), "en0")
+            out.append(line.encode())
             exp.append(expected_net(ipz, weff))
     while junk_rate and rng.random() < junk_rate:
         out.append(junk_line(rng))
@@ -819,7 +909,7 @@ def gen_table(rng, fmt, n, junk_rate=0.0, hostbits=0.5, allow_special=True):
     return text, exp, has_junk
 
 
-ctx_abbrev = [0]
+ctx_abbrev = [0, 0]      # [abbreviated iproute2 destinations, three-column netstat lines] generated
 
 WIN_SKIP = ("127.", "0.", "224.", "169.254.")
 WIN_HEAD = [b"===========================================================================\r\n", b"Interface List\r\n",
@@ -1452,6 +1542,24 @@ def correspondence(ctx):
                           {"kind": "genmask-table", "tool": "win", "rows": [[d, m] for d, m in one],
                            "line": win_genmask_table(one).split(b"\r\n")[len(WIN_HEAD)].decode(), "reason": reason, "address_not_routed": witness})
 
+    # netstat route lines that are plainly interpretable (spec_netstat_line) but not advertised: one report per kind of line
+    # (layout x exactly-three-columns-or-more x level), the smallest table as the failing input
+    ns_missed = {}
+
+    def ns_note(level, level_text, fmt, text, miss, rv, got):
+        ln, ncols, layout, net = miss
+        key = (level, layout, ncols == 3)
+        ctx.count("netstat_route_line_not_advertised")
+        if key not in ns_missed or len(text) < len(ns_missed[key][1]["text_hex"]) // 2:
+            ns_missed[key] = (netstat_line_what(ln, ncols, layout, net, level_text),
+                              {"kind": "netstat-line", "level": level, "tool": "netstat", "format": fmt, "text_hex": hx(text), "line": ln,
+                               "columns": ncols, "want": list(net), "got": got, "tool_exit_status": rv})
+
+    def ns_flush():
+        for key in sorted(ns_missed):
+            ctx.violation(*ns_missed[key])
+        ns_missed.clear()
+
     # ---- C: single lines through _route_iproute / _route_netstat / _route_windows (as found == repaired at this level)
     lines_txt = []
     for tk in JUNK_TOKENS + toks[:60]:
@@ -1477,6 +1585,23 @@ def correspondence(ctx):
     for ln in list(lines_txt[:400]):
         if rng.random() < 0.15:
             lines_txt.append(ln.rstrip("\n") + " On-link " + rng.choice(["", "x", ln]))
+    # `netstat -rn` shaped route lines with 3 .. 7 columns, BSD (abbreviated destinations, flags) and Linux (genmask) layout
+    for _ in range(250 if quick else 5000):
+        ip = rand_addr(rng)
+        w = rng.choice([0, 8, 16, 24, 32, rng.randint(0, 32)])
+        ipz = ip & ~((1 << (32 - w)) - 1) if w < 32 else ip
+        gwc = rng.choice(["link#5", "0.0.0.0", quad(rand_addr(rng)), "0:1b:21:a:b:c", "*"])
+        if rng.random() < 0.7:
+            txt, parts = abbreviate(rng, ipz, w)
+            dest = txt if rng.random() < 0.35 else "%s/%d" % (txt, rng.choice([w, w, rng.randint(0, 32)]))
+            cols = [dest, gwc, rng.choice(["UCS", "UGSc", "UHLWIi", "UH", "U", "UmCS"])]
+            extra = [str(rng.randint(0, 9)), str(rng.randint(0, 999)), "en0", str(rng.randint(1, 1200))]
+        else:
+            cols = [quad(rng.choice([ip, ipz])), gwc, quad((0xffffffff << (32 - w)) & 0xffffffff)]
+            extra = ["U", "0", "0", "0", "eth0"]
+        ncol = rng.choice([3, 3, 4, 6, rng.randint(3, 7)])
+        lines_txt.append(rng.choice([" ", "  ", "\t", "     "]).join(cols + extra[:ncol - 3]) + rng.choice(["\n", "\n", ""]))
+        ctx.count("line_netstat_shaped_%d_columns" % ncol)
     ascii_lines = [ln for ln in lines_txt if all(ord(c) < 128 for c in ln)]
     out = ctx.run_driver(["IPR " + hx(ln.encode()) for ln in ascii_lines] + ["NST " + hx(ln.encode()) for ln in ascii_lines]
                          + ["WIN " + hx(ln.encode()) for ln in ascii_lines])
@@ -1488,6 +1613,18 @@ def correspondence(ctx):
             ctx.count("line_%s_%s" % (what, im.split()[0] if not im.startswith("CRASH") else "raises_" + im.split()[1]))
             if im != mo:
                 ctx.disagree(what, repr(ln)[:300], im[:300], mo[:300])
+        # property oracle on the implementation alone: a plainly interpretable netstat route line yields its canonical network
+        sp = spec_netstat_line(ln)
+        if sp is not None:
+            ctx.count("line_netstat_spec_route_%s_%s_columns" % (sp[2], "3" if sp[1] == 3 else "4plus"))
+            f = b_.split()
+            have = expected_net(int(f[1]), min(int(f[2]), int(f[3]))) if f[0] == "OK" and 0 <= min(int(f[2]), int(f[3])) <= 32 else None
+            if have != sp[0] and kept(sp[0][0]):
+                one = (ln if ln.endswith("\n") else ln + "\n").encode()
+                lr = impl_lr("netstat", one)
+                if lr != "OK %s/%d" % sp[0]:
+                    ns_note("_list_routes, one-line table", " (_route_netstat -> %s; _list_routes on this one-line table -> %s)" % (b_[:40], lr[:60]),
+                            "one line", one, (ln, sp[1], sp[2], sp[0]), 0, lr[:80])
 
     # ---- D: whole tables through _list_routes; oracle = ipaddress on the generator's intent
     f7_seen = {}
@@ -1531,12 +1668,15 @@ def correspondence(ctx):
                               {"kind": "win-table", "tool": tool, "format": fmt, "text_hex": hx(text) if len(text) < 6000 else hx(text[:6000]),
                                "missing": list(miss) if miss else None, "printed_onlink": [list(e) for e in superset][:40],
                                "must_advertise": [list(e) for e in exp][:40]})
+        elif tool == "netstat" and netstat_table_missing(text, got) is not None:
+            # line by line, stated from the property text (spec_netstat_line); the failing input is the table
+            ns_note("_list_routes", " (_list_routes on `netstat -rn` output)", fmt, text, netstat_table_missing(text, got), rv, [list(g) for g in got][:40])
         elif not has_junk and got != exp:
             k = next((i for i in range(min(len(got), len(exp))) if got[i] != exp[i]), min(len(got), len(exp)))
             ctx.violation("advertised network is not the canonical network of the printed route",
                           {"tool": tool, "format": fmt, "text_hex": hx(text) if len(text) < 4000 else hx(text[:4000]),
                            "index": k, "got": got[k:k + 1], "want": exp[k:k + 1], "tool_exit_status": rv})
-        if has_junk:
+        if has_junk and not (tool == "netstat" and netstat_table_missing(text, got) is not None):
             # junk lines may legitimately parse (random text); the well-formed routes must still appear in order
             it = iter(got)
             if not all(any(g == e for g in it) for e in exp):
@@ -1554,6 +1694,9 @@ def correspondence(ctx):
         ctx.count("table_%s" % fmt)
         ctx.count("table_with_junk" if hj else "table_clean")
         ctx.count("table_routes", len(exp))
+        if tool == "netstat":
+            n3 = sum(1 for raw in text.split(b"\n") for sp in [spec_netstat_line(raw.decode("latin-1"))] if sp and sp[1] == 3)
+            ctx.count("table_netstat_three_column_route_lines", n3)
         table_case(tool, fmt, text, exp, hj, ("tab", fmt, text), rv=rng.choice([0, 0, 0, 1, 2, 255]))
     for k in range(30 if quick else 4000):
         text, exp, hj, onl = gen_windows_table(rng, rng.choice([0, 1, 2, 3, 10, 50, rng.randint(0, 200)]), junk_rate=rng.choice([0.0, 0.0, 0.15, 0.4]))
@@ -1595,7 +1738,7 @@ def correspondence(ctx):
         ctx.disagree("route PRINT: one On-link row per prefix length 0..32", "exhaustive-windows", got_win[:300], "the 32 networks /0../31 (the /32 host route is not advertised)")
     ctx.extra["exhaustive_width_x_abbreviation"] = len(ex_lines_ip) + len(ex_lines_nl) + len(ex_lines_bsd) + len(ex_rows_win)
     # list_routes(): the tool choice.  The machine has exactly one routing tool (or none); the command started must be that tool's
-    for tool, fmt in (("ip", "ip"), ("netstat", "netstat-linux"), ("win", "windows"), ("none", "ip")):
+    for tool, fmt in (("ip", "ip"), ("netstat", "netstat-linux"), ("netstat", "netstat-bsd"), ("win", "windows"), ("none", "ip")):
         for rv in (0, 1):
             if fmt == "windows":
                 text, exp, _hj, onl = gen_windows_table(rng, 12, allow_special=False)
@@ -1612,7 +1755,13 @@ def correspondence(ctx):
             if res != mo_f:
                 ctx.disagree("list_routes (tool choice + filter)", {"only_tool": tool, "text_hex": hx(text)[:2000]}, res[:300], mo_f[:300])
             wantk = [e for e in exp if kept(e[0])] if tool != "none" else []
-            if res != "OK " + ",".join("%s/%d" % e for e in wantk):
+            miss = None
+            if tool == "netstat" and res.startswith("OK"):
+                gotk = [(a, int(b)) for a, b in (x.rsplit("/", 1) for x in res[3:].split(",") if x)]
+                miss = netstat_table_missing(text, gotk)
+            if miss is not None:
+                ns_note("list_routes", " (list_routes() with `netstat -rn` as the only routing tool)", fmt, text, miss, rv, [list(g) for g in gotk][:40])
+            elif res != "OK " + ",".join("%s/%d" % e for e in wantk):
                 if res.startswith("CRASH"):
                     ctx.violation("route discovery raised on a well-formed table", {"kind": "list_routes", "only_tool": tool, "tool_exit_status": rv,
                                                                                     "text_hex": hx(text), "exception": res.split()[1]})
@@ -1620,6 +1769,8 @@ def correspondence(ctx):
                     ctx.violation("advertised networks are not the canonical networks of the printed routes (list_routes)",
                                   {"kind": "list_routes", "only_tool": tool, "tool_exit_status": rv, "text_hex": hx(text), "got": res[:300],
                                    "want": [list(e) for e in wantk]})
+
+    ns_flush()
 
     # F7 witnesses (the Coq *_refuted witnesses) replayed on the real code
     for tool, wl in F7_WITNESSES:
@@ -1702,6 +1853,15 @@ def correspondence(ctx):
                                "must_advertise": [list(e) for e in expk][:60]})
             expk = gotn      # what the client must then add
         elif payload != want_payload:
+            miss = None
+            if tool == "netstat":
+                gotn = payload_nets(payload)
+                miss = netstat_table_missing(text, gotn) if gotn is not None else None
+            if miss is not None:
+                # the precise report: which printed route line is missing from the ROUTES message (the client's plan follows the message)
+                ns_note("server.main", " (ROUTES message of server.main, `netstat -rn` the only routing tool)", fmt, text, miss, rv,
+                        payload[:200].decode("latin-1"))
+                return
             ctx.violation("ROUTES payload differs from the canonical networks of the table",
                           {"kind": "delivery", "tool": tool, "text_hex": hx(text)[:6000], "got": payload[:200].decode("latin-1"),
                            "want": want_payload[:200].decode("latin-1"), "tool_exit_status": rv})
@@ -1739,6 +1899,7 @@ def correspondence(ctx):
         # a machine with neither `ip` nor `netstat`: the (empty) advertisement is still delivered and the firewall started
         ctx.count("delivery_no_routing_tool")
         delivery_case("none", "none", gen_table(rng, "ip", 5)[0], [], ("deliv", "none", rv), rv=rv)
+    ns_flush()
     for target in ([65535, 65536] if quick else [65533, 65534, 65535, 65536, 65537, 65600]):
         st = sized_table(rng, target)
         if st is None:
@@ -1906,6 +2067,26 @@ def replay(ctx, rp):
         got = impl_lr(r["tool"], text)
         print("_list_routes(%s) on %r -> %s" % (r["tool"], text[:200], got[:200]))
         return got.startswith("CRASH")
+    if r.get("kind") == "netstat-line":
+        text = bytes.fromhex(r["text_hex"])
+        if r.get("level") == "list_routes":
+            got, _argvs = impl_list_routes("netstat", text, r.get("tool_exit_status", 0))
+        elif r.get("level") == "server.main":
+            st, payload, _w = impl_server("netstat", text, r.get("tool_exit_status", 0))
+            nets = payload_nets(payload) if st == "OK" else None
+            got = "CRASH %s" % (payload if st != "OK" else "malformed-ROUTES-payload") if nets is None else "OK " + ",".join("%s/%d" % e for e in nets)
+        else:
+            got = impl_lr("netstat", text, r.get("tool_exit_status", 0))
+        print("%s on the `netstat -rn` output\n%s-> %s" % ({"list_routes": "list_routes()", "server.main": "ROUTES message of server.main"}.get(r.get("level"), "_list_routes"), text[:1500].decode("latin-1"), got[:300]))
+        if got.startswith("CRASH"):
+            return True
+        gotl = [(a, int(b)) for a, b in (x.rsplit("/", 1) for x in got[3:].split(",") if x)]
+        miss = netstat_table_missing(text, gotl)
+        if miss is not None:
+            print("property failure:", netstat_line_what(miss[0], miss[1], miss[2], miss[3], ""))
+        else:
+            print("every plainly interpretable route line (not default, loopback or 0.x) is advertised with its canonical network, in order")
+        return miss is not None
     if r.get("kind") == "subseq":
         text = bytes.fromhex(r["text_hex"])
         got = impl_lr(r["tool"], text)
